@@ -13,6 +13,7 @@ import (
 	"strings"
 
 	"github.com/quay/claircore"
+	"github.com/quay/claircore/pkg/pep440"
 	"github.com/quay/claircore/verifharness/internal/hx"
 )
 
@@ -137,6 +138,112 @@ func mavenClass(law string, t [3]item) string {
 		return "maven-zero-intransitive"
 	}
 	return ""
+}
+
+// ---- PEP 440 order, stated on the parsed fields without going through Version()
+
+// pepSpecCmp orders two parsed versions by PEP 440's rules (a field that is 0
+// is an absent segment, as the parser reads it): epoch; release with missing
+// components as 0; a lone dev release before every pre-release, pre-releases
+// a < b < rc by number before the final release; a post release after it, by
+// number; a dev release before the thing it is a dev release of.  ok = both
+// have at most five release components and every number is below 2^31 (what
+// the ten int32 slots can hold).
+func pepSpecCmp(a, b pep440.Version) (int, bool) {
+	small := func(v pep440.Version) bool {
+		if len(v.Release) > 5 {
+			return false
+		}
+		for _, n := range append([]int{v.Epoch, v.Pre.N, v.Post, v.Dev}, v.Release...) {
+			if n < 0 || n >= 1<<31-1 {
+				return false
+			}
+		}
+		return true
+	}
+	if !small(a) || !small(b) {
+		return 0, false
+	}
+	key := func(v pep440.Version) []int64 {
+		k := []int64{int64(v.Epoch)}
+		for i := 0; i < 5; i++ {
+			if i < len(v.Release) {
+				k = append(k, int64(v.Release[i]))
+			} else {
+				k = append(k, 0)
+			}
+		}
+		switch {
+		case v.Pre.Label == "" && v.Post == 0 && v.Dev != 0:
+			k = append(k, -1, 0)
+		case v.Pre.Label == "":
+			k = append(k, 3, 0)
+		default:
+			k = append(k, int64(strings.Index("a b rc", v.Pre.Label)/2), int64(v.Pre.N))
+		}
+		k = append(k, int64(v.Post))
+		if v.Dev == 0 {
+			k = append(k, 1<<40)
+		} else {
+			k = append(k, int64(v.Dev))
+		}
+		return k
+	}
+	ka, kb := key(a), key(b)
+	for i := range ka {
+		if ka[i] != kb[i] {
+			if ka[i] < kb[i] {
+				return -1, true
+			}
+			return 1, true
+		}
+	}
+	return 0, true
+}
+
+// ---- RubyGems: normalised forms agree
+
+// gemCanonical: appending a zero segment does not change the canonical
+// segments ("1.2" and "1.2.0"), nor does a zero segment directly before the
+// first letter of a prerelease version ("1.0.a" and "1.a").
+func gemCanonical(r *hx.Run, s string) {
+	if s == "" || strings.TrimSpace(s) != s {
+		return
+	}
+	v, canon := gemParse(s)
+	if !v.ok {
+		return
+	}
+	check := func(what, t string) {
+		w, canon2 := gemParse(t)
+		if !w.ok {
+			return
+		}
+		r.Case("gem canonical "+what+" "+q(s)+" "+q(t), true)
+		r.Count("gem:canonical:" + what)
+		if canon != canon2 {
+			r.Fail("", fmt.Sprintf("gem canonical %s: %s has segments [%s], %s has [%s]", what, q(s), canon, q(t), canon2))
+		} else if c := cmpGuard(func() int { return v.v.Compare(w.v) }); c != 0 {
+			r.Fail("", fmt.Sprintf("gem canonical %s: %s and %s compare %d", what, q(s), q(t), c))
+		}
+	}
+	check("trailing-zero", s+".0")
+	check("trailing-zeros", s+".0.00")
+	// a zero segment in front of the first letter segment (no letter before it)
+	parts := strings.Split(strings.ReplaceAll(s, "-", ".pre."), ".")
+	for i, p := range parts {
+		if p == "" {
+			return
+		}
+		isNum := strings.Trim(p, "0123456789") == ""
+		if !isNum {
+			if i > 0 {
+				withZero := strings.Join(append(append(append([]string{}, parts[:i]...), "0"), parts[i:]...), ".")
+				check("zero-before-letter", withZero)
+			}
+			return
+		}
+	}
 }
 
 // ---- rhctag projection
